@@ -1,31 +1,37 @@
 (* nvref_c18: line protocol (hex = contiguous two-digit bytes, "-" = empty)
      sess <ign 0|1|r> <verify 0|1|r> <active hex-Z> <wb -|n> <input-hex> <oracle...>
-          r = the generated fact (NV.gen.VmdFacts);  oracle = none | nd | rej <msg-hex> | ran <err-hex|none> <chunk-hex>... | crash <chunk-hex>...
-        -> sent <hex> alive <0|1> active <hex-Z> shutdown <0|1>
+          r = the generated fact (NV.gen.VmdFacts / SigpipeSites via real_cfg); ign = the SIGPIPE disposition in force when the session starts
+          (r: as set at start-up); the exit-status rule and the disposition an FFI session leaves behind are always those of real_cfg.
+          oracle = none | nd | rej <msg-hex> | ran <err-hex|none> <chunk-hex>... | ranx <err-hex|none> <status-hex> <ffi 0|1> <chunk-hex>... | crash <chunk-hex>...
+        -> sent <hex> alive <0|1> active <hex-Z> shutdown <0|1> sigign <0|1>
      hdr <hex>     -> ok <type> <flags> <len> <restlen> | short | badver | toolong
      enc <type-hex> <payload-hex> -> <hex>
      dec <hex>     -> <n> {<type-hex>:<payload-hex>}... rest <hex>
      obs <hex>     -> out <hex> err <hex> exit <n>
-     facts         -> ign <0|1> verify <0|1> *)
+     facts         -> ign <0|1> verify <0|1> exitmain <0|1> saexitmain <0|1> ffisets <n|0|1> sitesok <0|1> *)
 let b01 b = if b then "1" else "0"
 let flag s gen = match s with "1" -> true | "0" -> false | _ -> gen
+let err_of e = if e = "none" then None else Some (bytes_of_hex e)
 let oracle_of ws : vm_oracle =
   match ws with
-  | ["nd"] -> { o_deser = (fun _ -> false); o_verify = (fun _ -> None); o_run = (fun _ -> Ran ([], None)) }
+  | ["nd"] -> { o_deser = (fun _ -> false); o_verify = (fun _ -> None); o_run = (fun _ -> Ran ([], None, N0, false)) }
   | ["rej"; m] -> { o_deser = (fun _ -> true); o_verify = (fun _ -> Some (bytes_of_hex m)); o_run = (fun _ -> Crashed []) }
-  | "ran" :: e :: ch -> let e' = if e = "none" then None else Some (bytes_of_hex e) in
-      { o_deser = (fun _ -> true); o_verify = (fun _ -> None); o_run = (fun _ -> Ran (List.map bytes_of_hex ch, e')) }
+  | "ran" :: e :: ch ->
+      { o_deser = (fun _ -> true); o_verify = (fun _ -> None); o_run = (fun _ -> Ran (List.map bytes_of_hex ch, err_of e, N0, false)) }
+  | "ranx" :: e :: st :: ffi :: ch ->
+      { o_deser = (fun _ -> true); o_verify = (fun _ -> None); o_run = (fun _ -> Ran (List.map bytes_of_hex ch, err_of e, n_of_hex st, ffi = "1")) }
   | "crash" :: ch -> { o_deser = (fun _ -> true); o_verify = (fun _ -> None); o_run = (fun _ -> Crashed (List.map bytes_of_hex ch)) }
   | "rejcrash" :: m :: ch -> { o_deser = (fun _ -> true); o_verify = (fun _ -> Some (bytes_of_hex m)); o_run = (fun _ -> Crashed (List.map bytes_of_hex ch)) }
-  | _ -> { o_deser = (fun _ -> false); o_verify = (fun _ -> None); o_run = (fun _ -> Ran ([], None)) }
+  | _ -> { o_deser = (fun _ -> false); o_verify = (fun _ -> None); o_run = (fun _ -> Ran ([], None, N0, false)) }
 let () = iter_lines (fun line ->
   match words line with
   | "sess" :: ign :: ver :: act :: wb :: inp :: orc ->
-      let c = { c_ignores_sigpipe = flag ign vmd_ignores_sigpipe; c_verify_first = flag ver verify_before_execute } in
-      let d = { alive = true; active = z_of_hex act; shutdown = false } in
+      let c = { c_ignores_sigpipe = flag ign vmd_ignores_sigpipe; c_verify_first = flag ver verify_before_execute;
+                c_exit_from_main = real_cfg.c_exit_from_main; c_ffi_sets = real_cfg.c_ffi_sets } in
+      let d = { alive = true; active = z_of_hex act; shutdown = false; sigign = c.c_ignores_sigpipe } in
       let wbv = if wb = "-" then None else Some (nat_of_int (int_of_string wb)) in
       let (sent, d') = client_thread c (oracle_of orc) (bytes_of_hex inp) wbv d in
-      print_string (Printf.sprintf "sent %s alive %s active %s shutdown %s\n" (hex_of_bytes sent) (b01 d'.alive) (hex_of_z d'.active) (b01 d'.shutdown))
+      print_string (Printf.sprintf "sent %s alive %s active %s shutdown %s sigign %s\n" (hex_of_bytes sent) (b01 d'.alive) (hex_of_z d'.active) (b01 d'.shutdown) (b01 d'.sigign))
   | ["hdr"; h] ->
       (match recv_header (bytes_of_hex h) with
        | RShort -> print_string "short\n" | RBadVersion _ -> print_string "badver\n" | RTooLong _ -> print_string "toolong\n"
@@ -37,6 +43,7 @@ let () = iter_lines (fun line ->
   | ["obs"; h] ->
       let o = client_observe (bytes_of_hex h) in
       print_string (Printf.sprintf "out %s err %s exit %d\n" (hex_of_bytes o.o_stdout) (hex_of_bytes o.o_stderr) (int_of_n o.o_exit))
-  | ["facts"] -> print_string (Printf.sprintf "ign %s verify %s\n" (b01 vmd_ignores_sigpipe) (b01 verify_before_execute))
+  | ["facts"] -> print_string (Printf.sprintf "ign %s verify %s exitmain %s saexitmain %s ffisets %s sitesok %s\n" (b01 vmd_ignores_sigpipe) (b01 verify_before_execute)
+        (b01 vmd_exit_from_main) (b01 standalone_exit_from_main) (match real_cfg.c_ffi_sets with None -> "n" | Some v -> b01 v) (b01 sigpipe_sites_ok))
   | [] -> ()
   | _ -> print_string "bad\n")
